@@ -72,7 +72,7 @@ type markNode struct {
 	label string
 	kind  el.NodeType
 	sh    *concShared
-	fail  bool // registry probes: Close error
+	fail  bool       // registry probes: Close error
 	nest  *el.Broker // the node reports to the Broker from Process (a nested Send of another event type)
 }
 
